@@ -244,7 +244,7 @@ def main():
             if k in shown or len(shown) >= 4:
                 continue
             shown.add(k)
-            print("INCONCLUSIVE property=%s reason=%s" % (mod.ID, r[:1500].replace("\\n", "\n")))
+            print("INCONCLUSIVE property=%s reason=%s" % (mod.ID, (r[:300] + " ... " + r[-500:] if len(r) > 900 else r).replace("\\n", "\n")))
         sys.exit(2)
     sys.exit(0)
 
